@@ -163,6 +163,18 @@ def check_case(rec, spec, config, seq, expected=None):
     case = dict(spec=spec, config=config, seq=[list(s) for s in seq])
     if expected is None:
         expected = wbspec.fresh_values(spec)
+    # every cell of a valid acyclic workbook *has* a value: generated
+    # workbooks only use implemented functions on legal arguments, so an
+    # exception (instead of an Excel error value) is a violation in itself
+    for addr, v in expected.items():
+        if isinstance(v, tuple) and v[:1] == ('raises',):
+            key = f'cell-has-no-value:{v[1]}:{models.feature_of(spec, addr)}'
+            msg = (f'evaluating {addr} in a fresh model raises {v[1]} '
+                   f'(formula {spec["sheets"].get(addr.split("!")[0], {}).get(addr.split("!")[1])!r})')
+            rec.case(key=(repr(spec['sheets']), 'fresh-raises'),
+                     labels=('fresh-raises',))
+            rec.fail(key, case, msg)
+            return key, msg
     in_rank_order = [s[0] % len(forms) for s in seq] == sorted(
         s[0] % len(forms) for s in seq)
     nontrivial = has_range_over_formulas(spec) and not in_rank_order
